@@ -1313,3 +1313,53 @@ func ruleC05Views(cx *Ctx) {
 		cx.R.Check(ok && n > 0, rule, funcName(fn), "returns the policy's "+v.field, cx.P.Pos(fn.Pos()), v.m+"() is evictionPolicy."+v.field+" (a constant without the feature)")
 	}
 }
+
+// ---------------------------------------------------------------------------------------------------------------
+// C08.wait: the record's wait / release primitives
+// ---------------------------------------------------------------------------------------------------------------
+
+func ruleC08Wait(cx *Ctx) {
+	const rule = "C08.wait"
+	cx.R.Rule(rule, 2, "call.wait blocks on the record's wait group on every path (a waiter never reads a result before the load finished); call.cancel releases the wait group exactly once on every path of a real record and never for a synthetic one")
+	wgF := cx.needField(rule, "", "call", "wg")
+	if wgF == nil {
+		return
+	}
+	if w := cx.need(rule, "", "call", "wait"); w != nil {
+		isWait := func(in ssa.Instruction) bool { return isStdMethod(in, "sync", "WaitGroup", "Wait") && sameField(recvField(in), wgF) }
+		ok, wit := MustFollowPt(Pt{w.Blocks[0], 0}, isWait, exitReturn, nil)
+		cx.R.Check(ok, rule, funcName(w), "waits on every path", cx.P.Pos(w.Pos()), "every returning path of wait passed wg.Wait()", wit...)
+	}
+	if c := cx.need(rule, "", "call", "cancel"); c != nil {
+		isDone := func(in ssa.Instruction) int {
+			if isStdMethod(in, "sync", "WaitGroup", "Done") && sameField(recvField(in), wgF) {
+				return 1
+			}
+			return 0
+		}
+		ok := true
+		var wit []string
+		n := 0
+		for _, ex := range CountOnPaths(c, Pt{c.Blocks[0], 0}, isDone, nil) {
+			r, isRet := ex.Exit.(*ssa.Return)
+			if !isRet {
+				continue
+			}
+			n++
+			fake := false
+			for _, g := range guardsAt(r.Block()) {
+				if f := fieldOf(g.Cond); f != nil && fname(f) == "isFake" && g.Truth {
+					fake = true
+				}
+			}
+			want := 1
+			if fake {
+				want = 0
+			}
+			if ex.Count != want {
+				ok, wit = false, ex.Witness
+			}
+		}
+		cx.R.Check(ok && n > 0, rule, funcName(c), "releases once unless synthetic", cx.P.Pos(c.Pos()), "cancel calls wg.Done() exactly once for a real record and not at all for a synthetic one", wit...)
+	}
+}
